@@ -91,3 +91,27 @@ PROPS["C11"] = {
                   "against the real pipeline on generated trees; ancestry tests themselves are C17's subject",
     "technique": "Lean 4 proof (flatten/unflatten simulation over first-child/next-sibling forests) + differential correspondence on real .ui skeletons",
 }
+
+PROPS["C09"] = {
+    "gen": [],
+    "lean": ["QV.Props.C09"],
+    "streams": ["c09"],
+    "rule": "each case is a generated string (markup characters, both quotes, CR/LF/TAB, leading/trailing blanks, ']]>', "
+            "'<![CDATA[', entity-looking text, non-ASCII BMP and astral characters) placed at one of 8 string-carrying positions "
+            "(string, translatable string, item text, stringlist, tab title attribute, icon theme XML attribute, window title, "
+            "<class> name) of a document translated by the real pipeline; (model) raw escaped text of the real .ui = Lean model; "
+            "(pred) the Lean XML-1.0 reader decodes the real raw text back to the source string; (oracle) strict XML parse + "
+            "Designer grammar check + read-back with the harness's own reader",
+    "trusted_base": ["quick-xml's writer emits the events it is given and escapes with escape::escape (modelled, tied by the c09 stream)",
+                     "harness/src/xml.rs (strict XML 1.0 reader) and harness/src/designer.rs (ui4 grammar subset) — independent of qmluic",
+                     "conforms_designer has no theorem: decided by the oracle on real outputs"],
+    "assumptions": ["strings are made of characters XML 1.0 can carry (the property's own scope)"],
+    "level_text": "proof for the string clause: text_roundtrip and attr_roundtrip — for every string of XML 1.0 characters the Lean "
+                  "XML reader (references, end-of-line and attribute-value normalisation) applied to the writer model's output returns "
+                  "the string; escaped text contains no '<', escaped attribute values no '\"'/'<'. Well-formedness of whole documents "
+                  "and Designer-grammar conformance are checked on real outputs by an oracle (partial).",
+    "level_note": "trusted: Lean kernel; writer model tied by exact comparison of raw escaped text on generated strings; grammar "
+                  "conformance and whole-document well-formedness by oracle only; F4 (CR / attribute whitespace not escaped) repaired "
+                  "in /repo (fix: da9b4ee), witnesses proved in Lean (f4_*_witness) and replayed from corpus/C09",
+    "technique": "Lean 4 proof (escape/read round trip for all XML strings) + differential correspondence + strict-parser/grammar oracle on real .ui",
+}
